@@ -315,6 +315,10 @@ func genC06(c *Ctx) {
 		sweepInert(c, with, without)
 		c.AddScenario(with.s, with.pols)
 	})
+	akeAfterSweep(c, func(with, without *sweepRun) {
+		sweepInert(c, with, without)
+		c.AddScenario(with.s, with.pols)
+	})
 	n := 30
 	if c.Thorough() {
 		n = 200
